@@ -1426,12 +1426,36 @@ def _leaf(S, positive, kinds):
     return gen_cls(S, cls, positive=positive, allow_nested=0)
 
 
+def _lit(S, values):
+    """A bare python literal operand; the values are the ones algebraic shortcuts look at (1, 1.0, 0, -1) plus 2."""
+    return q_(S.draw(st.sampled_from(values)), [])
+
+
+LIT_POS = [1, 1.0, 2]
+LIT_NONZERO = [1, 1.0, 2, -1]
+LIT_ANY = [1, 1.0, 2, 0, -1]
+
+
 def _ptree(S, dep, kinds):
     """Positive-valued tree: positive leaves combined with + * / ** and exp."""
     d = S.draw
     if dep == 0 or d(st.integers(0, 9)) < 2:
         return _leaf(S, True, kinds)
-    k = d(st.integers(0, 9))
+    k = d(st.integers(0, 10))
+    if k == 10:
+        # a literal 1 / 1.0 / 2 as the left operand of / * ** or the right operand of * / ** (1/e, e/1, 1*e, e**1 ...)
+        form = d(st.sampled_from(["l/", "/r", "*r", "l*", "l^", "^r"]))
+        if form == "l/":
+            return {"t": "op", "op": "/", "a": _lit(S, LIT_POS), "b": _ptree(S, dep - 1, kinds)}
+        if form == "/r":
+            return {"t": "op", "op": "/", "a": _ptree(S, dep - 1, kinds), "b": _lit(S, LIT_POS)}
+        if form == "*r":
+            return {"t": "op", "op": "*", "a": _ptree(S, dep - 1, kinds), "b": _lit(S, LIT_POS)}
+        if form == "l*":
+            return {"t": "op", "op": "*", "a": _lit(S, LIT_POS), "b": _ptree(S, dep - 1, kinds)}
+        if form == "l^":
+            return {"t": "op", "op": "^", "a": _lit(S, LIT_POS), "b": _small(S, True)}
+        return {"t": "op", "op": "^", "a": _ptree(S, dep - 1, kinds), "b": _lit(S, [1, 1.0, 0, -1, 2])}
     if k <= 1:
         return {"t": "op", "op": "+", "a": _ptree(S, dep - 1, kinds), "b": _ptree(S, dep - 1, kinds)}
     if k <= 3:
@@ -1468,7 +1492,7 @@ def _exponent(S, base_positive):
     if k <= 5:
         return q_(d(st.integers(-3, 3)), [])
     if k <= 7:
-        return q_(d(st.sampled_from([0.5, 1.5, -0.5, 2.0, -1.0])), [])
+        return q_(d(st.sampled_from([0.5, 1.5, -0.5, 2.0, -1.0, 1.0])), [])
     if k == 8:
         return {"t": "const", "q": q_(d(lin(-3, 3)), [])}
     return {"t": "sym", "k": S.new_name(q_(d(lin(-3, 3)), [])), "impl": d(st.booleans())}
@@ -1481,7 +1505,27 @@ def _gtree(S, dep, kinds):
         if d(st.booleans()):
             return _leaf(S, False, kinds)
         return _leaf(S, True, kinds)
-    k = d(st.integers(0, 11))
+    k = d(st.integers(0, 13))
+    if k >= 12:
+        # literal operands that hit (or just miss) algebraic shortcuts: 1/e, 0 - e, e - 0, e*1, e*0, e/1, 0 + e ...
+        form = d(st.sampled_from(["l/", "l-", "-r", "*r", "l*", "/r", "l+", "+r", "+0"]))
+        if form == "l/":
+            return {"t": "op", "op": "/", "a": _lit(S, LIT_ANY), "b": _ptree(S, dep - 1, kinds)}
+        if form == "l-":
+            return {"t": "op", "op": "-", "a": _lit(S, LIT_ANY), "b": _gtree(S, dep - 1, kinds)}
+        if form == "-r":
+            return {"t": "op", "op": "-", "a": _gtree(S, dep - 1, kinds), "b": _lit(S, LIT_ANY)}
+        if form == "*r":
+            return {"t": "op", "op": "*", "a": _gtree(S, dep - 1, kinds), "b": _lit(S, LIT_ANY)}
+        if form == "l*":
+            return {"t": "op", "op": "*", "a": _lit(S, LIT_ANY), "b": _gtree(S, dep - 1, kinds)}
+        if form == "/r":
+            return {"t": "op", "op": "/", "a": _gtree(S, dep - 1, kinds), "b": _lit(S, LIT_NONZERO)}
+        if form == "l+":
+            return {"t": "op", "op": "+", "a": _lit(S, LIT_ANY), "b": _gtree(S, dep - 1, kinds)}
+        if form == "+r":
+            return {"t": "op", "op": "+", "a": _gtree(S, dep - 1, kinds), "b": _lit(S, LIT_ANY)}
+        return {"t": "op", "op": "+", "a": _gtree(S, dep - 1, kinds), "b": {"t": "const", "q": q_(0.0, [])}}
     if k <= 1:
         return {"t": "op", "op": "-", "a": _gtree(S, dep - 1, kinds), "b": _gtree(S, dep - 1, kinds)}
     if k == 2:
@@ -1511,7 +1555,11 @@ def tree_cases(draw, max_depth=4, keyp=8):
     if wrap == "x/ma":
         root = _ptree(S, min(dep, 2), LEAF_CLASSES)
     if wrap not in ("none", "ma"):
-        b = _ptree(S, draw(st.integers(0, 2)), LEAF_CLASSES)
+        if draw(st.integers(0, 9)) >= 7:
+            # MassAction (UnaryWrapper) multiplied with / divided by a literal: ma/1, 1/ma, ma*1, 0*ma, 2/ma ...
+            b = _lit(S, LIT_ANY if wrap in ("ma*x", "x*ma") else LIT_POS)
+        else:
+            b = _ptree(S, draw(st.integers(0, 2)), LEAF_CLASSES)
     return _finish(draw, S, root, wrap, b, rxn, env)
 
 
